@@ -21,7 +21,8 @@ RULE = ("seeded random circuits (trees with heralded sub-circuits, directly decl
         "non-trivial = bunched input/output, herald in!=out, herald photons, or lossy circuit")
 MANDATORY = ["bunched_input", "vacuum_input", "herald_in_ne_out", "herald_photons", "lossy",
              "explicit_outputs", "input_list", "reject_wrong_length", "reject_negative",
-             "reject_noninteger", "reject_bool", "reject_photon_mismatch", "reject_nonstate"]
+             "reject_noninteger", "reject_bool", "reject_photon_mismatch", "reject_nonstate",
+             "simulator_reused_after_change"]
 DECIDING = ["mon.sim_postconditions", "mon.sim_amplitudes_checked", "rejections_checked"]
 BUDGET = {"quick": 25, "thorough": 420}
 ASSUMPTIONS = ["reference amplitude = own Glynn permanent over the circuit's own U_full and heralds "
@@ -158,4 +159,31 @@ def run(ctx):
             drain_into(ctx, case)
         if rng.random() < 0.6:
             hostile(ctx, lw, sim, c, rng, log)
+        if rng.random() < 0.4 and k > 0:
+            # the same long-lived Simulator after the circuit was edited in place / replaced
+            try:
+                nn = c.n_modes - len(c._internal_modes)
+                if rng.random() < 0.5:
+                    c.ps(int(rng.integers(nn)), 1.234)
+                    if nn >= 2:
+                        c.bs(0, 1, 0.3, float(rng.choice([0, 0.2])))
+                    log.append(["edited_in_place"])
+                else:
+                    c2, log2 = make_circuit(ctx, lw, rng)
+                    circmon.drain()
+                    if c2.input_modes == k:
+                        sim.circuit = c2
+                        c, log = c2, log2 + [["reassigned_to_simulator"]]
+                ctx.bucket("simulator_reused_after_change")
+                st = State(random_state(rng, k, int(rng.integers(0, 3))))
+                case = {"circuit": log, "inputs": [st.s], "outputs": None, "reused_simulator": True}
+                try:
+                    sim.simulate(st)
+                except Exception as e:  # noqa: BLE001
+                    ctx.count("simulate_raised:" + type(e).__name__)
+                ctx.case(("reuse", k, len(c.heralds["input"])), True)
+                drain_into(ctx, case)
+            except Exception as e:  # noqa: BLE001
+                ctx.count("reuse_construction_raised:" + type(e).__name__)
+                circmon.drain()
     merge_stats(ctx)
